@@ -10,6 +10,8 @@ import (
 
 // Corpus: regression witnesses, run first.
 var Corpus = [][]string{
+	// a handle whose snapshot is stale: Enable/Disable must still be sent
+	{"c create p1 127.0.0.1:$A u:1", "h fetch h1 p1", "h fetch h2 p1", "h disable h1", "h enable h2", "h disable h1", "c delete p1", "h enable h2"},
 	// C19 (fixed): `toxiproxy-cli toxic update` without --toxicity must keep the toxic's toxicity
 	{"c create p1 127.0.0.1:$A u:1", `c add p1 t1 latency downstream 0.3 {"latency":5}`, `cli tupd p1 t1 - {"jitter":7}`, "c toxics p1"},
 }
@@ -40,6 +42,24 @@ func Episode(r *rng.R) []string {
 	ops = append(ops, fmt.Sprintf("%s create p1 127.0.0.1:$A u:1", pick(r, "c", "cli")))
 	n := 4 + r.Intn(20)
 	for i := 0; i < n; i++ {
+		if r.Chance(1, 6) {
+			h := pick(r, "h1", "h1", "h2")
+			switch r.Intn(9) {
+			case 0, 1:
+				ops = append(ops, fmt.Sprintf("h fetch %s %s", h, pn()))
+			case 2, 3:
+				ops = append(ops, "h enable "+h)
+			case 4, 5:
+				ops = append(ops, "h disable "+h)
+			case 6:
+				ops = append(ops, "h save "+h)
+			case 7:
+				ops = append(ops, fmt.Sprintf("h set %s %s %s", h, listen(), pick(r, "u:1", "u:2")))
+			default:
+				ops = append(ops, "h delete "+h)
+			}
+			continue
+		}
 		switch x := r.Intn(24); {
 		case x < 2:
 			ops = append(ops, fmt.Sprintf("%s create %s %s %s", pick(r, "c", "cli"), pn(), listen(), pick(r, "u:1", "u:2")))
